@@ -23,6 +23,7 @@
 From Coq Require Import List Arith Bool.
 Require Import MTX.Model.C40_Rendezvous MTX.Proofs.C40_Rendezvous MTX.Proofs.C40_Refuted MTX.Check.C40 MTX.Proofs.C40_Check.
 Require Import MTX.Model.C40_CoreLoop MTX.Proofs.C40_CoreLoop MTX.Proofs.C40_CoreCheck.
+Require MTX.Model.C40_StreamLock MTX.Proofs.C40_StreamLock MTX.Proofs.C40_StreamCheck.
 Import ListNotations.
 
 (* progress: in every reachable state either nobody is inside an operation (quiescent), or some step other than an
@@ -213,3 +214,126 @@ Example C40_core_example_shutdown :
   | None => False
   end.
 Proof. vm_compute. repeat split. Qed.
+
+(* ==== Stream level (Model/C40_StreamLock.v, module SL): the public operations of stream.Stream - AddReader,
+   RemoveReader, SubStream.WriteUnit, the locked part of SubStream.Initialize (a sub-stream switch), WaitForReaders,
+   OutboundBytes, RTSPStream/RTSPSStream, Close, and any other well-behaved user of Stream.mutex - as straight-line
+   programs over the state the mutex guards, cut at every point where another goroutine can get in; the critical
+   sections are delimited by the Lock / Unlock instructions of the program table `SL.prog SL.Code` exactly as stream.go
+   delimits them; sync.RWMutex with its writer preference; hasReaders as a channel that panics when closed twice.
+   ANY number of concurrent calls (SL.LSpawn is the environment), ALL interleavings of the instructions.
+   `SL.reachable SL.Code` = stream.go; the other variants are edits of the program table.
+   Panic states: close of a closed channel; an access to s.readers / sf.onDatas / s.subStream / s.rtspStream without
+   the mutex in the required mode (for the maps: Go's fatal "concurrent map writes"); unlock of an unlocked mutex. ==== *)
+
+(* no schedule of concurrent Stream operations reaches a panic state *)
+Theorem C40_stream_no_panic : forall s, SL.reachable SL.Code s -> SL.panic s = None.
+Proof. exact C40_StreamLock.no_panic. Qed.
+Print Assumptions C40_stream_no_panic.
+
+(* the mutex is a mutex: at most one goroutine in a write section, none in a read section next to it, and the
+   goroutines inside a section (by their program position) are exactly those the mutex says *)
+Theorem C40_stream_mutual_exclusion : forall s, SL.reachable SL.Code s ->
+  (forall p q, SL.holds_w (SL.g s) p = true -> SL.holds_w (SL.g s) q = true -> p = q)
+  /\ (forall p q, SL.holds_w (SL.g s) p = true -> SL.holds_r (SL.g s) q = true -> False)
+  /\ (forall p pr, nth_error (SL.procs s) p = Some pr ->
+        (C40_StreamLock.stage (SL.p_code pr) = C40_StreamLock.SW <-> SL.holds_w (SL.g s) p = true)
+        /\ (C40_StreamLock.stage (SL.p_code pr) = C40_StreamLock.SR <-> SL.holds_r (SL.g s) p = true)).
+Proof. exact C40_StreamLock.mutual_exclusion. Qed.
+Print Assumptions C40_stream_mutual_exclusion.
+
+(* the hasReaders C40_StreamLock.handshake: whenever no goroutine is inside AddReader / RemoveReader with the write lock (the mutex
+   is free, or a reader / an observer has it), a registered reader means that hasReaders is closed: the registration
+   and the check-then-close are ONE critical section.  This is what an observer that gets the mutex between two
+   operations checks on the real Stream (Check.C40.zobs_bad) *)
+Theorem C40_stream_handshake : forall s, SL.reachable SL.Code s -> SL.no_mutator s ->
+  SL.readers (SL.g s) <> [] -> SL.has_closed (SL.g s) = true.
+Proof. exact C40_StreamLock.handshake. Qed.
+Print Assumptions C40_stream_handshake.
+
+(* WaitForReaders: once an AddReader call has returned, hasReaders is closed *)
+Theorem C40_stream_joined_means_closed : forall s p pr r, SL.reachable SL.Code s ->
+  nth_error (SL.procs s) p = Some pr -> SL.p_op pr = SL.OpAdd r -> SL.p_code pr = [] -> SL.has_closed (SL.g s) = true.
+Proof. exact C40_StreamLock.joined_means_closed. Qed.
+Print Assumptions C40_stream_joined_means_closed.
+
+(* every schedule of the calls in C40_StreamLock.progress is finite: exactly `SL.measure s` instructions are left *)
+Theorem C40_stream_every_schedule_finite : forall s ls s', SL.reachable SL.Code s ->
+  forallb SL.internal ls = true -> SL.run SL.Code s ls = Some s' -> length ls + SL.measure s' = SL.measure s.
+Proof. intros s ls s' R. apply C40_StreamLock.internal_run_bounded. exact (C40_StreamLock.inv_reachable s R). Qed.
+Print Assumptions C40_stream_every_schedule_finite.
+
+(* every operation C40_StreamLock.completes, WHATEVER the scheduler does: from a reachable state some call can always move unless all
+   have returned - the only goroutines that may be left are those in WaitForReaders on a stream that no AddReader was
+   ever called on - and when no call can move any more that is the state we are in; such a schedule exists *)
+Theorem C40_stream_every_operation_completes : forall s, SL.reachable SL.Code s ->
+  ((exists p s', SL.step SL.Code s (SL.LStep p) = Some s') \/ SL.quiescent s)
+  /\ (forall ls s', SL.run SL.Code s ls = Some s' ->
+        (forall l, SL.internal l = true -> SL.step SL.Code s' l = None) -> SL.quiescent s')
+  /\ (exists ls s', forallb SL.internal ls = true /\ SL.run SL.Code s ls = Some s' /\ SL.quiescent s'
+                    /\ length ls <= SL.measure s).
+Proof.
+  intros s R. pose proof (C40_StreamLock.inv_reachable s R) as I. split; [exact (C40_StreamLock.progress s I)|]. split.
+  - intros ls s' Hrun. apply C40_StreamLock.stuck_quiescent. eapply C40_StreamLock.inv_run; eassumption.
+  - exact (C40_StreamLock.completes s I).
+Qed.
+Print Assumptions C40_stream_every_operation_completes.
+
+(* the seeded edit (AddReader unlocks after the registration, the check-then-close of hasReaders follows): two first
+   joiners close the channel twice; and already after ONE joiner's Unlock an observer holding the mutex sees a
+   registered reader with hasReaders open - which C40_stream_handshake excludes for the code *)
+Theorem C40_stream_unlock_before_check_refuted :
+  (exists s, SL.reachable SL.UnlockBeforeCheck s /\ SL.panic s = Some SL.PDoubleClose)
+  /\ (exists s, SL.reachable SL.UnlockBeforeCheck s /\ SL.no_mutator s /\ SL.panic s = None
+                /\ SL.readers (SL.g s) = [1] /\ SL.has_closed (SL.g s) = false).
+Proof. split; [exact C40_StreamCheck.ubc_double_close|exact C40_StreamCheck.ubc_exposed]. Qed.
+Print Assumptions C40_stream_unlock_before_check_refuted.
+
+(* neighbours: RemoveReader that unlocks before its deletes, AddReader under the read lock, WriteUnit without the
+   read lock: each reaches an access to a guarded field without the mutex *)
+Theorem C40_stream_lock_discipline_refuted :
+  (exists s, SL.reachable SL.UnregAfterUnlock s /\ SL.panic s = Some SL.PRace)
+  /\ (exists s, SL.reachable SL.AddUnderRLock s /\ SL.panic s = Some SL.PRace)
+  /\ (exists s, SL.reachable SL.WriteNoLock s /\ SL.panic s = Some SL.PRace).
+Proof. split; [exact C40_StreamCheck.unreg_race|split; [exact C40_StreamCheck.rlock_race|exact C40_StreamCheck.nolock_race]]. Qed.
+Print Assumptions C40_stream_lock_discipline_refuted.
+
+(* the enabledness test of the stream-level correspondence check is complete, and the code's model never predicts an
+   observation that the check's spec_fail rejects *)
+Theorem C40_stream_check_settled_sound : forall s fr l s',
+  zsettled s fr = true -> SL.internal l = true -> SL.step SL.Code s l = Some s' ->
+  exists p, l = SL.LStep p /\ existsb (Nat.eqb p) fr = true.
+Proof. exact C40_StreamCheck.zsettled_sound. Qed.
+Print Assumptions C40_stream_check_settled_sound.
+
+Theorem C40_stream_obs_consistent : forall s o, SL.reachable SL.Code s -> SL.no_mutator s ->
+  zshared_matches s o = true ->
+  (match zo_readers o with [] => false | _ => true end && negb (zo_closed o)) = false
+  /\ list_eqb Nat.eqb (zo_readers o) (zo_cbs o) = true.
+Proof. exact C40_StreamCheck.zobs_consistent. Qed.
+Print Assumptions C40_stream_obs_consistent.
+
+(* non-vacuity: the schedule that crashes the edited table is not a schedule of the code; in the code the observer
+   that gets the mutex after the first joiner sees hasReaders closed *)
+Example C40_stream_example_code :
+  SL.run SL.Code SL.init C40_StreamLock.double_close_trace = None
+  /\ match SL.run SL.Code SL.init ([SL.LSpawn (SL.OpAdd 1); SL.LSpawn (SL.OpHold true)] ++ C40_StreamLock.steps 0 7 ++ C40_StreamLock.steps 1 2) with
+     | Some s => SL.holds_w (SL.g s) 1 = true /\ SL.readers (SL.g s) = [1] /\ SL.has_closed (SL.g s) = true
+     | None => False
+     end.
+Proof. split; [exact C40_StreamLock.same_trace_not_in_code|exact C40_StreamLock.code_not_exposed]. Qed.
+
+(* non-vacuity: two first joiners, a goroutine in WaitForReaders, a writer and a remover, interleaved: all return *)
+Example C40_stream_example_all_return :
+  match SL.run SL.Code SL.init
+          ([SL.LSpawn SL.OpWait; SL.LSpawn (SL.OpAdd 1); SL.LSpawn (SL.OpAdd 2); SL.LSpawn (SL.OpWrite 0)]
+           ++ [SL.LStep 1; SL.LStep 2; SL.LStep 3; SL.LStep 1; SL.LStep 3; SL.LStep 3; SL.LStep 3]
+           ++ C40_StreamLock.steps 1 5 ++ [SL.LStep 0] ++ C40_StreamLock.steps 2 6 ++ [SL.LSpawn (SL.OpRemove 1)] ++ C40_StreamLock.steps 4 5) with
+  | Some s => SL.quiescent s /\ SL.readers (SL.g s) = [2] /\ SL.has_closed (SL.g s) = true /\ SL.measure s = 0
+  | None => False
+  end.
+Proof.
+  match goal with |- match ?r with _ => _ end => destruct r as [s|] eqn:E; vm_compute in E; [|discriminate] end.
+  inversion E; subst s; clear E. split; [|repeat split].
+  intros pr Hin. left. simpl in Hin. repeat (destruct Hin as [<-|Hin]; [reflexivity|]). contradiction.
+Qed.
